@@ -296,7 +296,10 @@ func (s *muxerStream) hasPart(segmentID uint64, partID uint64, partProvided bool
 	}
 
 	if segmentID == s.nextSegmentID {
-		return partID < uint64(len(s.nextSegment.(*muxerSegmentFMP4).parts))
+		// nextSegment is nil after a segment rotation that failed
+		if nextSegment, ok := s.nextSegment.(*muxerSegmentFMP4); ok {
+			return partID < uint64(len(nextSegment.parts))
+		}
 	}
 
 	return false
@@ -547,17 +550,20 @@ func (s *muxerStream) generateMediaPlaylistFMP4(
 	}
 
 	if s.variant == MuxerVariantLowLatency {
-		for _, part := range s.nextSegment.(*muxerSegmentFMP4).parts {
-			u := part.path
-			if rawQuery != "" {
-				u += "?" + rawQuery
-			}
+		// nextSegment is nil after a segment rotation that failed
+		if nextSegment, ok := s.nextSegment.(*muxerSegmentFMP4); ok {
+			for _, part := range nextSegment.parts {
+				u := part.path
+				if rawQuery != "" {
+					u += "?" + rawQuery
+				}
 
-			pl.Parts = append(pl.Parts, &playlist.MediaPart{
-				Duration:    part.getDuration(),
-				URI:         u,
-				Independent: part.isIndependent,
-			})
+				pl.Parts = append(pl.Parts, &playlist.MediaPart{
+					Duration:    part.getDuration(),
+					URI:         u,
+					Independent: part.isIndependent,
+				})
+			}
 		}
 
 		// preload hint must always be present
